@@ -628,18 +628,8 @@ func rangeElemOf(fn *ssa.Function, prm *ssa.Parameter) (*ssa.IndexAddr, *ssa.Phi
 		if !ok || ia.X != ssa.Value(prm) {
 			return
 		}
-		// index is phi(-1, idx+1) incremented form: rangeindex loops compute t = phi(-1, t+1); i = t+1
-		if bo, ok := ia.Index.(*ssa.BinOp); ok && bo.Op == token.ADD {
-			if ph, ok := bo.X.(*ssa.Phi); ok {
-				if k, ok := constInt(bo.Y); ok && k == 1 {
-					if len(ph.Edges) == 2 {
-						k0, ok0 := constInt(ph.Edges[0])
-						if ok0 && k0 == -1 && ph.Edges[1] == ssa.Value(bo) {
-							found, idx = ia, ph
-						}
-					}
-				}
-			}
+		if isRangeIndex(ia.Index) {
+			found, idx = ia, ia.Index.(*ssa.BinOp).X.(*ssa.Phi)
 		}
 	})
 	return found, idx
